@@ -212,13 +212,109 @@ out:
 	relt_clear(&a); relt_clear(&g); relt_clear(&t); relt_clear(&r); relt_clear(&one);
 }
 
+
+/* simultaneous inversion: args sel, tid, a, b. The batch {a, b, ab + 1, a} (non-zero members only) through fpN_inv_sim with a separate
+ * output array and in place, for every batch length 1..4; each result times its input must be 1 in the reference ring. */
+typedef void (*isim_fn)(void *, const void *, int);
+static void w_is2(void *c, const void *a, int n) { fp2_inv_sim((fp2_t *)c, (const fp2_t *)a, n); }
+static void w_is3(void *c, const void *a, int n) { fp3_inv_sim((fp3_t *)c, (const fp3_t *)a, n); }
+static void w_is4(void *c, const void *a, int n) { fp4_inv_sim((fp4_t *)c, (const fp4_t *)a, n); }
+static void w_is8(void *c, const void *a, int n) { fp8_inv_sim((fp8_t *)c, (const fp8_t *)a, n); }
+static void w_is9(void *c, const void *a, int n) { fp9_inv_sim((fp9_t *)c, (const fp9_t *)a, n); }
+static void w_is16(void *c, const void *a, int n) { fp16_inv_sim((fp16_t *)c, (const fp16_t *)a, n); }
+static void do_isim(vf_case *c) {
+	long tid = mpz_get_si(c->v[1]); tdesc *D = &TW[tid]; const rtower *T = &D->rt; int th; int N = D->N;
+	isim_fn f = N == 2 ? w_is2 : N == 3 ? w_is3 : N == 4 ? w_is4 : N == 8 ? w_is8 : N == 9 ? w_is9 : N == 16 ? w_is16 : NULL; if (!f) return;
+	relt e[4], one, q; for (int i = 0; i < 4; i++) relt_init(&e[i]); relt_init(&one); relt_init(&q); relt_one(T, &one);
+	unpack(&e[0], T, c->v[2]); unpack(&e[1], T, c->v[3]); relt_mul(T, &e[2], &e[0], &e[1]); relt_add(T, &e[2], &e[2], &one); relt_set(T, &e[3], &e[0]);
+	int m = 0; relt *L[4]; for (int i = 0; i < 4; i++) if (!relt_is_zero(T, &e[i])) L[m++] = &e[i];
+	static fp_st IN[4 * 16], OUT[4 * 16];
+	for (int n = 1; n <= m; n++) for (int al = 0; al < 2; al++) {
+		for (int i = 0; i < n; i++) put(IN + i * N, T, L[i]); junk(OUT, 4 * N);
+		fp_st *o = al ? IN : OUT; VF_TRY(th, f(o, IN, n)); char w[64]; snprintf(w, sizeof w, "fp%d_inv_sim(n = %d%s)", N, n, al ? ", in place" : ", separate output");
+		if (th) { vf_fail(NULL, "%s raised %d", w, th); continue; }
+		for (int i = 0; i < n; i++) { transitions++; if (!get(&q, T, o + i * N)) { vf_fail(NULL, "%s: element %d has a non-canonical coefficient", w, i); break; } relt_mul(T, &q, &q, L[i]); if (!relt_eq(T, &q, &one)) { vf_fail(NULL, "%s: element %d times its input is not 1", w, i); break; } }
+		if (!al) for (int i = 0; i < n; i++) { relt t; relt_init(&t); get(&t, T, IN + i * N); if (!relt_eq(T, &t, L[i])) { vf_fail(NULL, "%s: input element %d modified", w, i); relt_clear(&t); break; } relt_clear(&t); }
+	}
+	for (int i = 0; i < 4; i++) relt_clear(&e[i]); relt_clear(&one); relt_clear(&q);
+}
+
+/* ---------------------------------------------------------------- cyclotomic subgroup of the towers 8, 16, 18, 24, 48, 54 (fp12 has its own op) */
+typedef void (*sim_fn)(void *, const void *, const bn_t, const void *, const bn_t);
+typedef void (*sps_fn)(void *, const void *, const int *, int, int);
+typedef void (*bsim_fn)(void *, const void *, int);
+typedef struct { int N; un_fn conv; tst_fn test; un_fn sqr[2]; const char *sqrn[2]; un_fn pck[2]; un_fn back; bsim_fn backsim; un_fn inv; exp_fn exp; sim_fn sim; sps_fn sps; } cycdesc;
+#define WSIM(name) static void w_##name(void *e, const void *a, const bn_t b, const void *c, const bn_t d) { name(e, a, b, c, d); }
+#define WSPS(name) static void w_##name(void *c, const void *a, const int *b, int l, int s) { name(c, a, b, l, s); }
+#define WBS(name, T) static void w_##name(void *c, const void *a, int n) { name((T *)c, (const T *)a, n); }
+#define CYCFULL(N) W2(fp##N##_conv_cyc) WT(fp##N##_test_cyc) W2(fp##N##_sqr_cyc_basic) W2(fp##N##_sqr_cyc_lazyr) W2(fp##N##_sqr_pck_basic) W2(fp##N##_sqr_pck_lazyr) W2(fp##N##_back_cyc) WBS(fp##N##_back_cyc_sim, fp##N##_t) W2(fp##N##_inv_cyc) WE(fp##N##_exp_cyc) WSPS(fp##N##_exp_cyc_sps)
+CYCFULL(18) CYCFULL(24) CYCFULL(48) CYCFULL(54) WSIM(fp18_exp_cyc_sim) WSIM(fp24_exp_cyc_sim) WSIM(fp48_exp_cyc_sim)
+W2(fp8_conv_cyc) WT(fp8_test_cyc) W2(fp8_sqr_cyc) W2(fp8_inv_cyc) WE(fp8_exp_cyc) WSIM(fp8_exp_cyc_sim)
+W2(fp16_conv_cyc) WT(fp16_test_cyc) W2(fp16_sqr_cyc) W2(fp16_inv_cyc) WE(fp16_exp_cyc) WSIM(fp16_exp_cyc_sim)
+WBS(fp12_back_cyc_sim, fp12_t) WSIM(fp12_exp_cyc_sim) WSPS(fp12_exp_cyc_sps)
+#define CDF(N, SIM) {N, w_fp##N##_conv_cyc, w_fp##N##_test_cyc, {w_fp##N##_sqr_cyc_basic, w_fp##N##_sqr_cyc_lazyr}, {"sqr_cyc_basic", "sqr_cyc_lazyr"}, {w_fp##N##_sqr_pck_basic, w_fp##N##_sqr_pck_lazyr}, w_fp##N##_back_cyc, w_fp##N##_back_cyc_sim, w_fp##N##_inv_cyc, w_fp##N##_exp_cyc, SIM, w_fp##N##_exp_cyc_sps}
+static const cycdesc CYC[] = {
+	{8, w_fp8_conv_cyc, w_fp8_test_cyc, {w_fp8_sqr_cyc, NULL}, {"sqr_cyc", NULL}, {NULL, NULL}, NULL, NULL, w_fp8_inv_cyc, w_fp8_exp_cyc, w_fp8_exp_cyc_sim, NULL},
+	{16, w_fp16_conv_cyc, w_fp16_test_cyc, {w_fp16_sqr_cyc, NULL}, {"sqr_cyc", NULL}, {NULL, NULL}, NULL, NULL, w_fp16_inv_cyc, w_fp16_exp_cyc, w_fp16_exp_cyc_sim, NULL},
+	{12, w_fp12_conv_cyc, w_fp12_test_cyc, {w_fp12_sqr_cyc_basic, w_fp12_sqr_cyc_lazyr}, {"sqr_cyc_basic", "sqr_cyc_lazyr"}, {w_fp12_sqr_pck_basic, w_fp12_sqr_pck_lazyr}, w_fp12_back_cyc, w_fp12_back_cyc_sim, w_fp12_inv_cyc, w_fp12_exp_cyc, w_fp12_exp_cyc_sim, w_fp12_exp_cyc_sps},
+	CDF(18, w_fp18_exp_cyc_sim), CDF(24, w_fp24_exp_cyc_sim), CDF(48, w_fp48_exp_cyc_sim), CDF(54, NULL)};
+/* Phi_k(p) for the towers served */
+static void cyc_phi(mpz_t phi, int N) {
+	mpz_t t; mpz_init(t);
+	switch (N) { case 8: mpz_pow_ui(phi, RX_P, 4); mpz_add_ui(phi, phi, 1); break; case 16: mpz_pow_ui(phi, RX_P, 8); mpz_add_ui(phi, phi, 1); break;
+		case 12: mpz_pow_ui(phi, RX_P, 4); mpz_pow_ui(t, RX_P, 2); mpz_sub(phi, phi, t); mpz_add_ui(phi, phi, 1); break; case 18: mpz_pow_ui(phi, RX_P, 6); mpz_pow_ui(t, RX_P, 3); mpz_sub(phi, phi, t); mpz_add_ui(phi, phi, 1); break;
+		case 24: mpz_pow_ui(phi, RX_P, 8); mpz_pow_ui(t, RX_P, 4); mpz_sub(phi, phi, t); mpz_add_ui(phi, phi, 1); break; case 48: mpz_pow_ui(phi, RX_P, 16); mpz_pow_ui(t, RX_P, 8); mpz_sub(phi, phi, t); mpz_add_ui(phi, phi, 1); break;
+		default: mpz_pow_ui(phi, RX_P, 18); mpz_pow_ui(t, RX_P, 9); mpz_sub(phi, phi, t); mpz_add_ui(phi, phi, 1); break; }
+	mpz_clear(t);
+}
+static void do_cycx(vf_case *c) {
+	tdesc *D = &TW[mpz_get_si(c->v[1])]; const rtower *T = &D->rt; int th, N = D->N; const cycdesc *Y = NULL; for (unsigned i = 0; i < sizeof CYC / sizeof *CYC; i++) if (CYC[i].N == N) Y = &CYC[i]; if (!Y) return;
+	relt a, g, t, r, one, q; relt_init(&a); relt_init(&g); relt_init(&t); relt_init(&r); relt_init(&one); relt_init(&q); unpack(&a, T, c->v[2]); relt_one(T, &one); mpz_t phi, e; mpz_inits(phi, e, NULL); cyc_phi(phi, N);
+	static fp_st CU[4 * 54], CV[4 * 54]; char w[96];
+	if (relt_is_zero(T, &a)) goto out;
+	/* conversion: the result must be the easy part a^((p^k - 1) / Phi_k(p)); the full power is computed in the reference for the small towers (and in
+	 * the thorough tier), membership g^Phi_k(p) = 1 always */
+	put(EA, T, &a); junk(EC, N); VF_TRY(th, Y->conv(EC, EA)); transitions++; if (th) { vf_fail(NULL, "fp%d_conv_cyc raised", N); goto out; } if (!get(&g, T, EC)) { vf_fail(NULL, "fp%d_conv_cyc: non-canonical coefficient", N); goto out; }
+	relt_pow(T, &t, &g, phi); if (!relt_eq(T, &t, &one)) { vf_fail(frb_kf(D), "fp%d_conv_cyc: the result is not in the cyclotomic subgroup (g^Phi_k(p) != 1)", N); goto out; }
+	if (N <= 18 || vf_tier) { mpz_pow_ui(e, RX_P, (unsigned long)N); mpz_sub_ui(e, e, 1); mpz_divexact(e, e, phi); relt_pow(T, &t, &a, e); transitions++; if (!relt_eq(T, &t, &g)) vf_fail(frb_kf(D), "fp%d_conv_cyc: differs from a^((p^k - 1) / Phi_k(p))", N); }
+	{ int tc = 0; put(EA, T, &g); VF_TRY(th, tc = Y->test(EA)); transitions++; if (!th && !tc) vf_fail(NULL, "fp%d_test_cyc rejects an element of the cyclotomic subgroup", N);
+		put(EA, T, &a); VF_TRY(th, tc = Y->test(EA)); transitions++; if (!th && tc) { relt_pow(T, &t, &a, phi); if (!relt_eq(T, &t, &one)) vf_fail(NULL, "fp%d_test_cyc accepts an element outside the cyclotomic subgroup", N); } }
+	/* squarings */
+	relt_mul(T, &r, &g, &g);
+	for (int v = 0; v < 2; v++) if (Y->sqr[v]) for (int al = 0; al < 2; al++) { put(EA, T, &g); junk(EC, N); fp_st *o = al ? EA : EC; VF_TRY(th, Y->sqr[v](o, EA)); snprintf(w, sizeof w, "fp%d_%s%s", N, Y->sqrn[v], al ? "[alias]" : ""); if (th) vf_fail(NULL, "%s raised", w); else expect(D, w, o, &r, NULL); }
+	/* compressed squarings and decompression (single and simultaneous) */
+	if (Y->pck[0] && relt_eq(T, &g, &one)) vf_stat_add("x.compressed_unity_not_offered_(finding_L44_under_C07)", 1);
+	if (Y->pck[0] && !relt_eq(T, &g, &one)) for (int v = 0; v < 2; v++) { put(EA, T, &g); relt_set(T, &r, &g); memcpy(CU, EA, sizeof(fp_st) * (size_t)N);
+		for (int k = 1; k <= 3; k++) { VF_TRY(th, Y->pck[v](CU, CU)); if (th) { vf_fail(NULL, "fp%d_sqr_pck raised", N); break; } relt_mul(T, &r, &r, &r); memcpy(CV + (size_t)(k - 1) * N, CU, sizeof(fp_st) * (size_t)N);
+			junk(EC, N); VF_TRY(th, Y->back(EC, CU)); snprintf(w, sizeof w, "fp%d_sqr_pck_%s x %d + back_cyc", N, v ? "lazyr" : "basic", k); if (th) vf_fail(NULL, "%s raised %d", w, th); else expect(D, w, EC, &r, NULL); }
+		if (Y->backsim && !th) { /* CV holds the compressed g^2, g^4, g^8 */ for (int al = 0; al < 2; al++) { memcpy(CU, CV, sizeof(fp_st) * (size_t)(3 * N)); static fp_st CO[4 * 54]; junk(CO, 3 * N); fp_st *o = al ? CU : CO; VF_TRY(th, Y->backsim(o, CU, 3)); snprintf(w, sizeof w, "fp%d_back_cyc_sim(3%s)", N, al ? ", in place" : "");
+				if (th) { vf_fail(NULL, "%s raised %d", w, th); continue; } relt_mul(T, &r, &g, &g); for (int k = 0; k < 3; k++) { char w2[112]; snprintf(w2, sizeof w2, "%s element %d", w, k); expect(D, w2, o + (size_t)k * N, &r, NULL); relt_mul(T, &r, &r, &r); } } } }
+	/* inverse */
+	put(EA, T, &g); junk(EC, N); VF_TRY(th, Y->inv(EC, EA)); transitions++; if (th) vf_fail(NULL, "fp%d_inv_cyc raised", N); else { get(&q, T, EC); relt_mul(T, &q, &q, &g); if (!relt_eq(T, &q, &one)) vf_fail(NULL, "fp%d_inv_cyc: g * inv_cyc(g) != 1", N); }
+	/* exponentiation: small, even, power-of-two, negative, long and dense exponents */
+	{ const char *es[] = {"0", "1", "2", "3", "4", "6", "-1", "-5", "10001", "10000", "ffffffffffffffff", "10000000000000000", "-10000000000000001", "d3b1a40c29f1e8f7a5b6c3d2e1f0a9b8c7d6e5f4a3b2c1d0"}; int ne = (N >= 48 && !vf_tier) ? 10 : 14;
+		for (int i = 0; i < ne; i++) { bn_t be; bn_new(be); mpz_set_str(e, es[i], 16); vf_bn_set(be, e); int neg = mpz_sgn(e) < 0; mpz_abs(e, e); relt_pow(T, &r, &g, e);
+			put(EA, T, &g); junk(EC, N); VF_TRY(th, Y->exp(EC, EA, be)); snprintf(w, sizeof w, "fp%d_exp_cyc(g, %s)", N, es[i]); transitions++;
+			if (th) vf_fail(NULL, "%s raised", w); else if (!neg) expect(D, w, EC, &r, NULL); else { get(&q, T, EC); relt_mul(T, &q, &q, &r); if (!relt_eq(T, &q, &one)) vf_fail(NULL, "%s: not the inverse power", w); }
+			if (0 && Y->sim && i % 3 == 1) { /* not judged here: fpN_exp_cyc_sim decomposes its exponents with the Frobenius of the SELECTED PAIRING CURVE (group order, family parameter), i.e. it is defined on GT only; C12 / the family harness judge it there through gt_exp_sim */ /* g^e * (g^2)^3 */ bn_t b3; bn_new(b3); bn_set_dig(b3, 3); relt gg; relt_init(&gg); relt_mul(T, &gg, &g, &g); put(EA, T, &g); put(EB_, T, &gg); junk(EC, N); VF_TRY(th, Y->sim(EC, EA, be, EB_, b3)); transitions++;
+				relt_mul(T, &q, &gg, &gg); relt_mul(T, &q, &q, &gg); snprintf(w, sizeof w, "fp%d_exp_cyc_sim(g, %s, g^2, 3)", N, es[i]);
+				if (th) vf_fail(NULL, "%s raised", w); else if (!neg) { relt_mul(T, &q, &q, &r); expect(D, w, EC, &q, NULL); } else { relt x; relt_init(&x); get(&x, T, EC); relt_mul(T, &x, &x, &r); if (!relt_eq(T, &x, &q)) vf_fail(NULL, "%s: differs from g^e * g^6", w); relt_clear(&x); } relt_clear(&gg); } } }
+	/* sparse exponents: sum of signed powers of two, optional overall sign */
+	if (Y->sps) { static const int S1[] = {0, 3, -5}, S2[] = {2, 7}, S3[] = {0}, S4[] = {1, -4, 9, 12}; const int *SS[] = {S1, S2, S3, S4}; const int SL[] = {3, 2, 1, 4};
+		for (int i = 0; i < 4; i++) for (int sg = 0; sg < 2; sg++) { mpz_set_ui(e, 0); mpz_t u; mpz_init(u); for (int j = 0; j < SL[i]; j++) { mpz_set_ui(u, 1); mpz_mul_2exp(u, u, (unsigned long)abs(SS[i][j])); if (SS[i][j] < 0) mpz_sub(e, e, u); else mpz_add(e, e, u); } if (sg) mpz_neg(e, e); mpz_clear(u);
+			int neg = mpz_sgn(e) < 0; mpz_abs(e, e); relt_pow(T, &r, &g, e); put(EA, T, &g); junk(EC, N); VF_TRY(th, Y->sps(EC, EA, SS[i], SL[i], sg ? RLC_NEG : RLC_POS)); transitions++; snprintf(w, sizeof w, "fp%d_exp_cyc_sps(pattern %d, sign %d)", N, i, sg);
+			if (th) vf_fail(NULL, "%s raised", w); else if (!neg) expect(D, w, EC, &r, NULL); else { get(&q, T, EC); relt_mul(T, &q, &q, &r); if (!relt_eq(T, &q, &one)) vf_fail(NULL, "%s: not the inverse power", w); } } }
+out:
+	relt_clear(&a); relt_clear(&g); relt_clear(&t); relt_clear(&r); relt_clear(&one); relt_clear(&q); mpz_clears(phi, e, NULL);
+}
+
 static void run_case(vf_case *c) {
 	if (!select_prime(c->v[0])) { vf_fail(NULL, "prime refused"); return; }
 	long tid = mpz_get_si(c->v[1]); if (tid < 1 || tid >= NTW) { vf_fail(NULL, "bad tower"); return; }
 	if (!TW[tid].usable) return;
 	vf_nontrivial();
 	if (!strcmp(c->op, "bin")) do_bin(c); else if (!strcmp(c->op, "un")) do_un(c); else if (!strcmp(c->op, "frb")) do_frb(c); else if (!strcmp(c->op, "exp")) do_exp(c);
-	else if (!strcmp(c->op, "srt")) do_srt(c); else if (!strcmp(c->op, "cyc")) do_cyc(c); else vf_fail(NULL, "unknown op");
+	else if (!strcmp(c->op, "srt")) do_srt(c); else if (!strcmp(c->op, "cyc")) do_cyc(c); else if (!strcmp(c->op, "isim")) do_isim(c); else if (!strcmp(c->op, "cycx")) do_cycx(c); else vf_fail(NULL, "unknown op");
 }
 
 /* ---------------------------------------------------------------- enumeration */
@@ -277,7 +373,7 @@ static void enumerate(void) {
 			 * exist only when p = 1 mod the tower's index (true inside every pairing family, not for arbitrary 16-bit primes): the tiny world
 			 * judges the ring operations of those towers only; the Frobenius-based ones are judged at the shipped pairing primes. */
 			for (int i = 0; i < d.n && !vf_expired(); i += st) if (vf_mine()) { run_el("un", sel, tid, d.v[i]);
-				for (int j = i % 3; j < d.n; j += (d.n > 60 ? d.n / 20 : 1)) { K.op = "bin"; K.n = 4; mpz_set(K.v[0], sel); mpz_set_si(K.v[1], tid); mpz_set(K.v[2], d.v[i]); mpz_set(K.v[3], d.v[j]); vf_run(&K); } }
+				for (int j = i % 3; j < d.n; j += (d.n > 60 ? d.n / 20 : 1)) { K.op = "bin"; K.n = 4; mpz_set(K.v[0], sel); mpz_set_si(K.v[1], tid); mpz_set(K.v[2], d.v[i]); mpz_set(K.v[3], d.v[j]); vf_run(&K); if ((i + j) % 3 == 0) { K.op = "isim"; vf_run(&K); } } }
 			vf_dom_clear(&d); }
 		vf_bound_done(bn);
 	}
@@ -312,7 +408,8 @@ static void enumerate(void) {
 				if (i % (8 * st) == 0) run_el("frb", sel, tid, d.v[i]);
 				if (TW[tid].srt && i % (4 * st) == 0) run_el("srt", sel, tid, d.v[i]);
 				if (TW[tid].N == 12 && i % (2 * st) == 0) run_el("cyc", sel, tid, d.v[i]);
-				for (int j = i % 5, cnt = 0; j < d.n && cnt < pairs; j += (d.n / pairs + 1), cnt++) { K.op = "bin"; K.n = 4; mpz_set(K.v[0], sel); mpz_set_si(K.v[1], tid); mpz_set(K.v[2], d.v[i]); mpz_set(K.v[3], d.v[j]); vf_run(&K); }
+				{ int nn = TW[tid].N; if ((nn == 8 || nn == 12 || nn == 16 || nn == 18 || nn == 24 || nn == 48 || nn == 54) && i % ((nn >= 48 ? 8 : nn >= 18 ? 4 : 2) * st) == 0) run_el("cycx", sel, tid, d.v[i]); }
+				for (int j = i % 5, cnt = 0; j < d.n && cnt < pairs; j += (d.n / pairs + 1), cnt++) { K.op = "bin"; K.n = 4; mpz_set(K.v[0], sel); mpz_set_si(K.v[1], tid); mpz_set(K.v[2], d.v[i]); mpz_set(K.v[3], d.v[j]); vf_run(&K); if (cnt < 6) { K.op = "isim"; vf_run(&K); } }
 				if (i % (8 * st) == 0) { const char *es[] = {"0", "1", "2", "-1", "-2", "10001", "ffffffffffffffffffffffffffffffffffffffffffffffffffffffffffffffff", "1000000000000000000000000000000000000000000000000000000000000000000000000001"};
 					for (unsigned q = 0; q < 8; q++) { K.op = "exp"; K.n = 4; mpz_set(K.v[0], sel); mpz_set_si(K.v[1], tid); mpz_set(K.v[2], d.v[i]); mpz_set_str(K.v[3], es[q], 16); vf_run(&K); }
 					K.op = "exp"; K.n = 4; mpz_set(K.v[3], RX_P); vf_run(&K); }
